@@ -197,6 +197,39 @@ func checkC04(w *World) {
 				// the validator must not itself delegate to ParseFloat or a regexp of unknown language; it must reject on characters: requires comparisons with '0','9','.','-'
 				w.validatorShape(P, validator)
 			}
+			// every number the conversion hands back is NaN or what ParseFloat made of the validated string: no second
+			// way of computing the value (an integer fast path overflows or accepts another syntax)
+			if b, isB := fn.Signature.Results().At(0).Type().Underlying().(*types.Basic); fn.Signature.Results().Len() == 1 && isB && b.Kind() == types.Float64 {
+				other := ""
+				var okVal func(v ssa.Value, d int) bool
+				okVal = func(v ssa.Value, d int) bool {
+					if d > 6 {
+						return false
+					}
+					switch x := stripConv(v).(type) {
+					case *ssa.Extract:
+						return x.Tuple == ssa.Value(c) && x.Index == 0
+					case *ssa.Call:
+						if sc := staticCallee(x); sc != nil && funcFullName(sc) == "math.NaN" {
+							return true
+						}
+					case *ssa.Phi:
+						for _, e := range x.Edges {
+							if !okVal(e, d+1) {
+								return false
+							}
+						}
+						return true
+					}
+					return false
+				}
+				allInstrs(fn, func(in2 ssa.Instruction) {
+					if ret, isRet := in2.(*ssa.Return); isRet && len(ret.Results) == 1 && !okVal(ret.Results[0], 0) && other == "" {
+						other = w.pos(ret.Pos())
+					}
+				})
+				w.check(P, "R04.2", "every result of "+fn.Name()+" is NaN or ParseFloat's", fn.Pos(), other == "", "a return that hands back a number computed in another way: "+orNone(other))
+			}
 		})
 	})
 	if nPF == 0 {
